@@ -1101,11 +1101,11 @@ def check(tier: str) -> int:
     idx = list(range(len(scases)))
     rng.shuffle(idx)
     idx = [i for i in idx if len(scases[i]) < 400][:sample_n]
-    vm_ok_s, _ = core.coq_eval_cases("c18s", "SockProto", [scases[i] for i in idx], [sexp[i] for i in idx])
+    vm_ok_s, vm_log_s = core.coq_eval_cases("c18s", "SockProto", [scases[i] for i in idx], [sexp[i] for i in idx])
     uidx = list(range(len(ucs)))
     rng.shuffle(uidx)
     uidx = uidx[:sample_n]
-    vm_ok_u, _ = core.coq_eval_cases("c18u", "UnixLoop", [ucs[i] for i in uidx], [uexp[i] for i in uidx])
+    vm_ok_u, vm_log_u = core.coq_eval_cases("c18u", "UnixLoop", [ucs[i] for i in uidx], [uexp[i] for i in uidx])
 
     # ---------------- (b) end-to-end ----------------
     e2e = collect_e2e(e2e_procs, tier)
@@ -1215,6 +1215,7 @@ def check(tier: str) -> int:
         "op_distribution": opcount,
         "vm_compute_sample": len(idx) + len(uidx),
         "vm_compute_ok": bool(vm_ok_s and vm_ok_u),
+        "vm_compute_log": (vm_log_s + vm_log_u)[-1200:],
         "model_rejected_ops": srejected,
         "unix_scripts_dropped_out_of_fuel_or_invalid": fuel_dropped,
         "monitor_hits": monitor_hits,
